@@ -572,6 +572,11 @@ func (dp *DataProcessor) applyHavingWithCaseExpression(results []map[string]any)
 				if strResult != "" {
 					filteredResults = append(filteredResults, result)
 				}
+			} else if boolResult, ok := havingResult.(bool); ok {
+				// a comparison over the CASE value (CASE ... END = 1) yields a boolean
+				if boolResult {
+					filteredResults = append(filteredResults, result)
+				}
 			} else {
 				// Other types, non-nil is considered true
 				filteredResults = append(filteredResults, result)
